@@ -70,7 +70,10 @@ ASSUMPTIONS = ["times and deltas are non-negative; enable_sleeping() is not used
 FUEL = 2000                     # default bound on loop iterations of one run() (random/grid streams)
 DFS_FUEL = 300                  # ... in the dfs stream, where a legitimate pass needs < 40
 ONCE_READS = 4000               # clock reads allowed to one run_once() / API call
-MAX_FAILS = 300                 # a shard stops generating once it has this many property failures
+MAX_FAILS = 100                 # a shard stops generating once it has this many property failures
+MAX_OVERRUNS = 6                # ... or once this many operations of the tree under test did not
+                                # come to rest (each costs a full loop budget)
+GRID_FUEL = 300
 D = 500000                      # the one delta of the dfs stream (0.5 s, exact in binary)
 
 
@@ -156,6 +159,7 @@ def raised_kind(e):
 
 class Impl:
     _inst = None
+    overruns = 0          # operations of this process in which a loop did not come to rest
 
     @classmethod
     def get(cls):
@@ -197,6 +201,7 @@ class Impl:
 
         def body(task):
             h.out.append(["fire", idx, us(h.vt.now), us(task.taskTime)])
+            h.do_acts(spec.get("a", ()))
             for f in spec["defers"]:
                 h.defer(f)
             if spec["raises"]:
@@ -225,6 +230,7 @@ class Impl:
         def work():
             h.out.append(["call", spec["id"]])
             h.calls.append(spec["id"])
+            h.do_acts(spec.get("a", ()))
             for k in spec["k"]:
                 h.defer(k)
             if spec["r"]:
@@ -234,6 +240,31 @@ class Impl:
         self.fn_keep.append(fn)
         self.subs.append(spec["id"])
         self.bcore.deferred(fn)
+
+    def q(self, ticks):
+        """ticks -> us, rounded as the driver does"""
+        return (2 * ticks + self.tpu) // (2 * self.tpu)
+
+    def do_acts(self, acts):
+        """re-entrant use of the scheduler from inside a task body / deferred function"""
+        for a in acts:
+            now = us(self.vt.now)
+            if a[0] == "at":
+                t = self.tasks[a[1]]
+                t.install_task(when=self.sec(a[2]))
+                self.out.append(["act", "at", a[1], self.q(a[2]), now, us(t.taskTime)])
+            elif a[0] == "after":
+                t = self.tasks[a[1]]
+                t.install_task(delta=self.sec(a[2]))
+                self.out.append(["act", "after", a[1], self.q(a[2]), now, us(t.taskTime)])
+            elif a[0] == "suspend":
+                self.tasks[a[1]].suspend_task()
+                self.out.append(["act", "suspend", a[1], now])
+            elif a[0] == "stop":
+                self.bcore.stop()
+                self.out.append(["act", "stop", now])
+            else:
+                raise core.Infra("bad act %r" % (a,))
 
     def logged(self, fmt, *args):
         """what core.run / core.run_once call from their `except Exception`"""
@@ -282,6 +313,7 @@ class Impl:
                 target = head
         if target > self.T:
             vt.now = max(vt.now, self.T)
+            self.stub_stopped = True
             self.bcore.stop()
             return
         vt.now = target
@@ -295,6 +327,7 @@ class Impl:
         # installation numbers are reported relative to the counter's value at reset
         self.seq0 = next(copy.copy(self.tm.counter))
         self.trigger.flag = False
+        self.bcore.running = False
         self.tpu = req.get("tpu", 1)
         self.tasks = [self.make_task(i, s) for i, s in enumerate(req["tasks"])]
         self.out, self.calls, self.subs = [], [], []
@@ -306,10 +339,11 @@ class Impl:
                          [(t.taskTime, t.isScheduled, getattr(t, "taskInterval", None),
                            getattr(t, "taskIntervalOffset", None)) for t in self.tasks],
                          list(self.bcore.deferredFns), self.trigger.flag,
-                         list(self.calls), list(self.subs))
+                         list(self.calls), list(self.subs), self.bcore.running)
 
     def restore(self, k):
-        now, heap, cnt, attrs, dq, flag, calls, subs = self.snaps[k]
+        now, heap, cnt, attrs, dq, flag, calls, subs, running = self.snaps[k]
+        self.bcore.running = running
         self.vt.now = now
         self.tm.tasks[:] = heap
         self.tm.counter = copy.copy(cnt)
@@ -327,6 +361,7 @@ class Impl:
                 "flags": [bool(t.isScheduled) for t in self.tasks],
                 "ttime": [us(t.taskTime) for t in self.tasks],
                 "trig": bool(self.trigger.flag),
+                "running": bool(self.bcore.running),
                 "queue": [self.fn_ids.get(id(f[0]), -1) for f in self.bcore.deferredFns]}
 
     # ---- operations ---------------------------------------------------------
@@ -336,8 +371,10 @@ class Impl:
         self.max_reads = 20 * fuel + ONCE_READS
         self.loops = 0
         self.overrun = False
+        self.stub_stopped = False
         self.bcore.run(spin=1.0e9, sigterm=None, sigusr1=None)
-        return 0 if self.overrun else 1
+        # 0 = did not come to rest, 1 = reached T, 2 = stopped from inside (stop() in a body)
+        return 0 if self.overrun else 1 if self.stub_stopped else 2
 
     def do(self, req):
         op = req["op"]
@@ -399,6 +436,8 @@ class Impl:
             aux = 0
         except Exception as e:
             self.out.append(["raised", raised_kind(e)])
+        if aux == 0 and op in ("once", "run", "jump"):
+            Impl.overruns += 1
         tm = self.tm
         rep = {"r": "ok", "out": self.out, "now": us(vt.now),
                "deadline": us(tm.tasks[0][0]) if tm.tasks else None,
@@ -486,14 +525,34 @@ class Oracle:
                 else:
                     self.arm(t, got)
         if op in ("next", "once", "run", "jump"):
-            for ev in rep["out"]:
+            inst0 = self.inst             # installations made from here on happen during the pass
+            rearm = None                  # recurring re-install, due after the body's own acts
+            for ev in rep["out"] + [["end"]]:
+                if ev[0] != "act" and rearm is not None:
+                    rtid, want = rearm
+                    rearm = None
+                    self.pending[rtid] = [want, self.inst, want.denominator == 1 and self.tol == 0]
+                    self.inst += 1
+                    self.tt[rtid] = want
+                if ev[0] == "act":
+                    if ev[1] in ("at", "after"):
+                        _a, kind, tid, reqv, anow, due = ev
+                        want = reqv if kind == "at" else anow + reqv
+                        if due is None or not self.near(due, want):
+                            fail("act-due", "task %d installed from inside a callback (%s %d at %d): "
+                                 "taskTime %r" % (tid, kind, reqv, anow, due))
+                        else:
+                            self.arm(tid, due)
+                    elif ev[1] == "suspend":
+                        self.pending.pop(ev[2], None)
+                    continue
                 if ev[0] != "fire":
                     continue
                 _f, tid, fnow, fdue = ev
                 p = self.pending.get(tid)
                 if p is None:
                     fail("fired-unscheduled", "task %d fired at %d but is not scheduled "
-                         "(suspended, never installed, or already fired)" % (tid, fnow))
+                         "(suspended, never installed, moved away, or already fired)" % (tid, fnow))
                     continue
                 if not self.near(fdue, p[0]):
                     fail("wrong-due", "task %d fired with due %d, scheduled for %s" % (tid, fdue, p[0]))
@@ -511,24 +570,32 @@ class Oracle:
                              "(due %s, installation %d)" % (tid, p[0], p[1], o, q[0], q[1]))
                 del self.pending[tid]
                 if self.tasks[tid]["rec"] and self.iv[tid]:
-                    want = self.grid_next(tid, fnow)
-                    self.pending[tid] = [want, self.inst, want.denominator == 1 and self.tol == 0]
-                    self.inst += 1
-                    self.tt[tid] = want
-            done = rep["aux"] == 1
+                    rearm = (tid, self.grid_next(tid, fnow))
+            aux = rep["aux"]
             if op != "next":
-                if not done:
+                if aux not in (1, 2) or (aux == 2 and op != "run" and op != "jump"):
                     fail("no-quiescence", "the loop did not come to rest")
-                else:
+                elif aux == 1:
                     for tid, p in self.pending.items():
+                        # run_once decides whether to go round again BEFORE the body runs: what a
+                        # callback installs for "now" during the pass may be left for the next pass
+                        if op == "once" and p[1] >= inst0:
+                            continue
                         if p[0] + 0.5 + self.tol < self.now:
                             fail("due-not-fired", "task %d due %s still queued after a complete pass "
                                  "at %d" % (tid, float(p[0]), self.now))
                     if impl.calls != impl.subs:
                         fail("deferred", "submitted %r, called %r" % (impl.subs, impl.calls),
                              lost=len(impl.subs) - len(impl.calls))
-                    if dg["queue"]:
-                        fail("deferred", "functions left in the queue after a complete pass: %r" % (dg["queue"],))
+        # deferred functions, after every operation: what was called is a prefix of what was
+        # submitted and the queue holds exactly the rest, in order — nothing lost, ever
+        nc = len(impl.calls)
+        if impl.calls != impl.subs[:nc]:
+            fail("deferred", "submitted %r, called %r" % (impl.subs, impl.calls))
+        elif dg["queue"] != impl.subs[nc:]:
+            fail("deferred", "submitted %r, called %r, but the queue holds %r: %d lost"
+                 % (impl.subs, impl.calls, dg["queue"], len(impl.subs) - nc - len(dg["queue"])),
+                 lost=len(impl.subs) - nc - len(dg["queue"]))
         # the schedule itself: one entry per task, present iff flagged, at the due time
         tids = [e[2] for e in dg["heap"]]
         if len(set(tids)) != len(tids):
@@ -592,7 +659,10 @@ def run_scenarios(ctx, stream, scns):
     impl = Impl.get()
     all_reqs, impl_reps, owners = [], [], []
     for si, scn in enumerate(scns):
-        if len(ctx.failures) > MAX_FAILS:
+        if len(ctx.failures) > MAX_FAILS or Impl.overruns > MAX_OVERRUNS:
+            ctx.notes.append("%s: stopped after %d of %d scenarios (%d property failures, %d loops "
+                             "that did not come to rest)" % (stream, si, len(scns), len(ctx.failures),
+                                                             Impl.overruns))
             scns = scns[:si]
             break
         orc = Oracle(scn)
@@ -743,8 +813,9 @@ def shard_dfs(ctx, spec):
     tasks = [PLAIN] * 4
     head = [{"op": "reset", "tpu": 1, "tasks": tasks}]
     for prefix, k in prefixes:
-        if len(ctx.failures) > MAX_FAILS:
-            ctx.notes.append("dfs shard stopped early after %d property failures" % len(ctx.failures))
+        if len(ctx.failures) > MAX_FAILS or Impl.overruns > MAX_OVERRUNS:
+            ctx.notes.append("dfs shard stopped early after %d property failures, %d loops that did "
+                             "not come to rest" % (len(ctx.failures), Impl.overruns))
             break
         reqs, parents = dfs_subtree(prefix, k, L, last_adv)
         drv = AsyncDriver(head + reqs) if ctx.model_ok else None
@@ -799,27 +870,62 @@ def run_dfs(ctx, L, last_adv=False):
 G = 15625            # 1/64 s in us: every multiple is an exact double
 
 
-def fn_spec(rng, ids, depth=0):
+def rand_acts(rng, me, p):
+    """re-entrant acts for the random stream: installs are always `after d` with d > 0 and
+    only of one-shot tasks (0..3), so every chain of re-arming moves forward in time"""
+    acts = []
+    if rng.random() >= p:
+        return acts
+    for _ in range(rng.choice([1, 1, 2])):
+        r = rng.random()
+        if r < 0.35 and me is not None and me < 4:
+            acts.append(["after", me, rng.choice([8, 16]) * G])
+        elif r < 0.6:
+            acts.append(["after", rng.randrange(4), rng.choice([8, 16, 32]) * G])
+        elif r < 0.93:
+            acts.append(["suspend", rng.randrange(6)])
+        else:
+            acts.append(["stop"])
+    return acts
+
+
+def fn_spec(rng, ids, depth=0, pacts=0.0):
     i = ids[0]; ids[0] += 1
     kids = []
     if depth < 2:
         for _ in range(rng.choice([0, 0, 0, 1, 2])):
-            kids.append(fn_spec(rng, ids, depth + 1))
-    return {"id": i, "r": rng.random() < 0.3, "k": kids, "kind": rng.randrange(KINDS)}
+            kids.append(fn_spec(rng, ids, depth + 1, pacts))
+    f = {"id": i, "r": rng.random() < 0.3, "k": kids, "kind": rng.randrange(KINDS)}
+    acts = rand_acts(rng, None, pacts)
+    if acts:
+        f["a"] = acts
+    return f
 
 
-def gen_random(rng, n_ops):
+def gen_random(rng, n_ops, reentrant=False):
+    """reentrant: task bodies and deferred functions use the scheduler themselves.  The clock then
+    starts at 2^30 s + 1/64 s, where every time in play (multiples of 1/64 s, the recurring slots,
+    now + 1 us rounded to 2^-22 s) is an exact double, so collisions of one-shot deadlines with
+    recurring slots are exact ties on both sides."""
     ids = [1]
     tasks = []
+    pa = 0.5 if reentrant else 0.0
+    pf = 0.3 if reentrant else 0.0
     # four one-shot tasks (two classes), two recurring tasks on disjoint grids that no
     # harness-chosen instant ever touches (instants are 1/64 + m/8 s, slots are multiples of 1/8 s)
     for i in range(4):
         tasks.append({"rec": False, "raises": rng.random() < 0.3, "kind": rng.randrange(KINDS + 1),
-                      "defers": [fn_spec(rng, ids) for _ in range(rng.choice([0, 0, 1, 2]))]})
+                      "defers": [fn_spec(rng, ids, 0, pf) for _ in range(rng.choice([0, 0, 1, 2]))]})
+        acts = rand_acts(rng, i, pa)
+        if acts:
+            tasks[-1]["a"] = acts
     for i in range(2):
         tasks.append({"rec": True, "raises": rng.random() < 0.3, "kind": rng.randrange(KINDS + 1),
-                      "defers": [fn_spec(rng, ids) for _ in range(rng.choice([0, 0, 1]))]})
-    base = rng.choice([0, 1 << 30]) * 1000000 + G
+                      "defers": [fn_spec(rng, ids, 0, pf) for _ in range(rng.choice([0, 0, 1]))]})
+        acts = [a for a in rand_acts(rng, None, pa)]
+        if acts:
+            tasks[-1]["a"] = acts
+    base = (1 << 30 if reentrant else rng.choice([0, 1 << 30])) * 1000000 + G
     # recurring parameters (us): grids k/4 and 1/8 + k/2  — disjoint
     recp = {4: [(250000, None), (250000, 0), (500000, 250000)], 5: [(500000, 125000), (1000000, 625000)]}
     ops = []
@@ -852,7 +958,7 @@ def gen_random(rng, n_ops):
                 iv, off = None, rng.choice(recp[t])[1]
             ops.append({"op": "rec", "t": t, "iv": iv, "off": off})
         elif r < 0.66:
-            ops.append({"op": "defer", "f": fn_spec(rng, ids)})
+            ops.append({"op": "defer", "f": fn_spec(rng, ids, 0, pf)})
         elif r < 0.70:
             d = rng.choice([0, 8, 16]) * G
             now += d
@@ -889,7 +995,7 @@ def shard_random(ctx, spec):
     rng = ctx.sub_rng("c14-random-%s" % label)
     scns = []
     for i in range(n):
-        scn = gen_random(rng, n_ops)
+        scn = gen_random(rng, n_ops, reentrant=(i % 2 == 1))
         if i % 4 == 0:
             scn = fix_random(scn)
         else:
@@ -923,22 +1029,22 @@ def grid_scenarios(ctx, rng):
                         continue
                     ops = [{"op": "rec", "t": 0, "iv": iv, "off": off}]
                     k = 6 if ctx.quick else 25
-                    ops += [{"op": "jump", "fuel": FUEL} for _ in range(k)]
+                    ops += [{"op": "jump", "fuel": GRID_FUEL} for _ in range(k)]
                     kind = rng.randrange(4)
                     if kind == 0:
                         ops += [{"op": "suspend", "t": 0}, {"op": "tick", "d": 2 * iv + 5 * TPU},
-                                {"op": "resume", "t": 0}, {"op": "jump", "fuel": FUEL}, {"op": "jump", "fuel": FUEL}]
+                                {"op": "resume", "t": 0}, {"op": "jump", "fuel": GRID_FUEL}, {"op": "jump", "fuel": GRID_FUEL}]
                     elif kind == 1:
                         # a late pass: several slots go by, no catch-up
                         d = 3 * iv + iv // 2
-                        ops += [{"op": "once", "d": d}, {"op": "jump", "fuel": FUEL}]
+                        ops += [{"op": "once", "d": d}, {"op": "jump", "fuel": GRID_FUEL}]
                     elif kind == 2:
-                        ops += [{"op": "rec", "t": 0, "iv": None, "off": None}, {"op": "jump", "fuel": FUEL}]
+                        ops += [{"op": "rec", "t": 0, "iv": None, "off": None}, {"op": "jump", "fuel": GRID_FUEL}]
                     else:
                         iv2 = rng.choice(intervals)
                         ops += [{"op": "tick", "d": 17 * TPU}]
-                        ops += [{"op": "rec", "t": 0, "iv": iv2, "off": None}, {"op": "jump", "fuel": FUEL},
-                                {"op": "jump", "fuel": FUEL}]
+                        ops += [{"op": "rec", "t": 0, "iv": iv2, "off": None}, {"op": "jump", "fuel": GRID_FUEL},
+                                {"op": "jump", "fuel": GRID_FUEL}]
                     scns.append({"tpu": TPU, "base": base, "tol": 1 if base_s >= 10**9 else 0,
                                  "tasks": [{"rec": True, "raises": (len(scns) % 5 == 0), "defers": []}],
                                  "ops": ops})
@@ -998,6 +1104,117 @@ def shard_deferred(ctx, kbase):
 
 
 # --------------------------------------------------------------------------
+# re-entrant bodies: a task (or a deferred function) uses the scheduler while it runs
+
+def reentrant_scenarios(ctx):
+    """task 0 is the actor: its body — or a function it defers — installs itself / another task,
+    suspends itself / another task, stops the loop; possibly raising afterwards.  Tasks 1 and 2
+    are due at the same instant.  Then the history goes on: the actor is re-installed, resumed,
+    suspended, ... and time passes, so that a stale flag or a duplicated entry shows."""
+    T8 = 8 * D
+    variants = [
+        [], [["after", 0, D]], [["at", 0, T8]], [["after", 1, D]], [["after", 1, 0]], [["at", 1, T8]],
+        [["suspend", 1]], [["suspend", 2]], [["suspend", 0]], [["stop"]],
+        [["after", 0, D], ["suspend", 1]], [["suspend", 1], ["after", 1, D]],
+        [["after", 0, D], ["after", 0, 2 * D]], [["after", 0, D], ["suspend", 0]],
+        [["after", 0, D], ["stop"]],
+    ]
+    followups = [
+        [],
+        [{"op": "at", "t": 0, "when": 3 * D}, "adv", "adv", "adv"],       # move the re-armed actor
+        [{"op": "resume", "t": 0}, "adv", "adv"],
+        [{"op": "suspend", "t": 0}, "adv", "adv"],
+        [{"op": "bare", "t": 0}, "adv", "adv"],
+        [{"op": "after", "t": 0, "d": 2 * D}, {"op": "after", "t": 0, "d": 3 * D}, "adv", "adv", "adv", "adv"],
+        [{"op": "at", "t": 1, "when": 3 * D}, "adv", "adv", "adv"],
+        ["adv", {"op": "at", "t": 0, "when": 4 * D}, "adv", "adv", "adv"],
+    ]
+    setups = [
+        [{"op": "at", "t": 0, "when": D}, {"op": "at", "t": 1, "when": D}, {"op": "after", "t": 2, "d": D}],
+        [{"op": "at", "t": 1, "when": D}, {"op": "after", "t": 2, "d": D}, {"op": "at", "t": 0, "when": D}],
+    ]
+    scns = []
+    n = 0
+    for vi, acts in enumerate(variants):
+        for where in ("body", "fn"):
+            for raises in (False, True):
+                for si, setup in enumerate(setups):
+                    for loop in ("once", "run"):
+                        for fi, fu in enumerate(followups):
+                            n += 1
+                            if ctx.quick and (n + vi + fi) % 3:      # a third of the grid in quick
+                                continue
+                            adv = {"op": loop, "d": D}
+                            if loop == "run":
+                                adv["fuel"] = FUEL
+                            actor = {"rec": False, "raises": raises, "defers": [], "kind": n % (KINDS + 1)}
+                            if where == "body":
+                                actor["a"] = acts
+                            else:
+                                actor["defers"] = [{"id": 1, "r": raises, "k": [{"id": 2, "r": False, "k": []}],
+                                                    "a": acts, "kind": n % KINDS}]
+                            tasks = [actor, dict(PLAIN, kind=(n + 1) % (KINDS + 1)),
+                                     {"rec": False, "raises": False, "kind": (n + 2) % (KINDS + 1),
+                                      "defers": [{"id": 5, "r": False, "k": [], "kind": (n + 3) % KINDS}]}]
+                            ops = list(setup) + [adv] + [dict(adv) if o == "adv" else o for o in fu]
+                            scns.append({"tpu": 1, "tasks": tasks, "ops": ops})
+    return scns
+
+
+def stop_scenarios(ctx):
+    """core.run() stopped from inside: stop() called by a member of a deferred batch (every
+    position) while the members defer more work (every subset) and one may raise; or by a task
+    body.  Then a second run() / run_once().  Every submitted function must be called exactly
+    once overall, in submission order."""
+    scns = []
+    for n in range(1, 5):
+        for p in range(n):
+            for mask in range(1 << n):
+                for r in range(-1, n):
+                    for second in ("run", "once"):
+                        fns = []
+                        for i in range(n):
+                            f = {"id": i, "r": i == r, "kind": (i + p + mask) % KINDS,
+                                 "k": [{"id": 10 + i, "r": False, "kind": (i + mask) % KINDS,
+                                        "k": [{"id": 20 + i, "r": False, "k": []}] if i == p else []}]
+                                 if (mask >> i) & 1 else []}
+                            if i == p:
+                                f["a"] = [["stop"]]
+                            fns.append(f)
+                        adv2 = {"op": second, "d": 0}
+                        if second == "run":
+                            adv2["fuel"] = FUEL
+                        scns.append({"tpu": 1, "tasks": [PLAIN],
+                                     "ops": [{"op": "defer", "f": f} for f in fns]
+                                     + [{"op": "run", "d": D, "fuel": FUEL}, adv2, {"op": "once", "d": D}]})
+    # stopped by a task body; every task defers a function that defers a child
+    for stopper in range(3):
+        for raises in (False, True):
+            for second in ("run", "once"):
+                tasks = []
+                for i in range(3):
+                    t = {"rec": False, "raises": raises and i == stopper, "kind": (i + stopper) % (KINDS + 1),
+                         "defers": [{"id": i, "r": False, "kind": (i + 2) % KINDS,
+                                     "k": [{"id": 10 + i, "r": False, "k": []}]}]}
+                    if i == stopper:
+                        t["a"] = [["stop"]]
+                    tasks.append(t)
+                adv2 = {"op": second, "d": D}
+                if second == "run":
+                    adv2["fuel"] = FUEL
+                scns.append({"tpu": 1, "tasks": tasks,
+                             "ops": [{"op": "at", "t": i, "when": D} for i in range(3)]
+                             + [{"op": "run", "d": D, "fuel": FUEL}, adv2, {"op": "once", "d": 0}]})
+    return scns
+
+
+def shard_reentrant(ctx, spec):
+    which, i, n = spec
+    scns = reentrant_scenarios(ctx) if which == "reentrant" else stop_scenarios(ctx)
+    run_scenarios(ctx, which, scns[i::n])
+
+
+# --------------------------------------------------------------------------
 # entry points
 
 def corpus_scenarios():
@@ -1012,6 +1229,8 @@ def run(ctx):
     rng = ctx.sub_rng("c14")
     run_scenarios(ctx, "corpus", corpus_scenarios())
     core.run_shards(ctx, "harness.c14", "shard_deferred", list(range(KINDS)))
+    core.run_shards(ctx, "harness.c14", "shard_reentrant",
+                    [(w, i, 8) for w in ("reentrant", "stop") for i in range(8)])
     run_scenarios(ctx, "grid", grid_scenarios(ctx, rng))
     if ctx.quick:
         core.run_shards(ctx, "harness.c14", "shard_random", [("q%d" % i, 25, 200) for i in range(16)])
